@@ -71,9 +71,35 @@ func genC10FanSize(t *rapid.T) bson.D {
 	return bson.D{{Key: "doc", Value: bson.D{{Key: "_id", Value: int32(1)}, {Key: "a", Value: elems}}}, {Key: "filter", Value: bson.D{{Key: "a.b", Value: cond}}}}
 }
 
+// genC10AllRepeat: an array that repeats values (also as equal numbers of
+// different types) against $all lists of 1-3 items from the same small pool:
+// $all is the conjunction of the equalities, however often an item occurs.
+func genC10AllRepeat(t *rapid.T) bson.D {
+	pool := []interface{}{int32(1), float64(1), int64(2), "x", nil, int32(3)}
+	pick := func(label string) interface{} {
+		return pool[rapid.IntRange(0, 999).Draw(t, label)%len(pool)]
+	}
+	arr := bson.A{}
+	for i, n := 0, 1+rapid.IntRange(0, 999).Draw(t, "arLen")%4; i < n; i++ {
+		arr = append(arr, pick("arV"))
+	}
+	list := bson.A{}
+	for i, n := 0, 1+rapid.IntRange(0, 999).Draw(t, "arItems")%3; i < n; i++ {
+		list = append(list, pick("arI"))
+	}
+	cond := bson.D{{Key: "$all", Value: list}}
+	if rapid.IntRange(0, 999).Draw(t, "arNot")%4 == 1 {
+		cond = bson.D{{Key: "$not", Value: cond}}
+	}
+	return bson.D{{Key: "doc", Value: bson.D{{Key: "_id", Value: int32(1)}, {Key: "a", Value: arr}}}, {Key: "filter", Value: bson.D{{Key: "a", Value: cond}}}}
+}
+
 func genC10Agree(t *rapid.T) bson.D {
-	if rapid.IntRange(0, 999).Draw(t, "shape")%16 == 7 {
+	switch rapid.IntRange(0, 999).Draw(t, "shape") % 16 {
+	case 7:
 		return genC10FanSize(t)
+	case 9:
+		return genC10AllRepeat(t)
 	}
 	cfg := gen.Core
 	doc := cfg.Doc(2, 3).Draw(t, "doc")
